@@ -329,3 +329,48 @@ Print Assumptions c05_sp_invariant.
 Print Assumptions c05_win_guard_nonvacuous.
 Print Assumptions c05_zero_window_open_nonvacuous.
 Print Assumptions c05_rto_single_nonvacuous.
+
+(* ---- (c) leaving single-segment mode, restated (c05_rto_exit_ok2): the counter goes from positive to zero
+   in a Pending poll only if bytes were removed from the table, or a segment of the table as it was became
+   delivered, or the expired MTU probe (as the state before the poll shows it) was popped.
+   optm: the probe retransmission limit is that of the configuration (an invariant). ---- *)
+Theorem c05_rto_exit_ok2_every_step : forall (CC : Type) (cci : cc_iface CC) (cfg : vconfig) (s : vsock CC) (o : vop),
+  ti s -> sp s -> optm cfg s -> c05_rto_exit_ok2 cfg (VSock_Lemmas.fstep_of cci s o) = true.
+Proof. exact @c05_rto_exit_ok2_step. Qed.
+
+Theorem c05_rto_exit_ok2_every_trace : forall (CC : Type) (cci : cc_iface CC)
+    (mk : Z -> Z -> CC) (c : vconfig) (s0 : vsock CC) (ops : list vop),
+  0 <= vc_isn c < M16 -> vsock_new cci mk c = Some s0 ->
+  forallb (c05_rto_exit_ok2 c) (ftrace cci s0 ops) = true.
+Proof. exact @c05_rto_exit_ok2_trace. Qed.
+
+Theorem c05_rto_exit_nonvacuous :
+  exists w cfg ops,
+    vconfig_ok cfg = true /\ Forall op_msg_ok ops /\
+    existsb (fun st => (0 <? f_rto_retx (fs_pre st)) && (f_rto_retx (fs_post st) =? 0) &&
+                       (f_seg_removed (fs_pre st) <? f_seg_removed (fs_post st)) &&
+                       match fs_result st with FrPoll PollPending _ _ _ => true | _ => false end)
+            (wtrace w cfg ops) = true /\
+    forallb (c05_rto_exit_ok2 cfg) (wtrace w cfg ops) = true /\
+    forallb (c05_rto_exit_ok cfg) (wtrace w cfg ops) = true.
+Proof. exact rto_exit_nonvacuous. Qed.
+
+(* ---- the monitored preconditions: the part that is an invariant (segment sizes, counter, mss);
+   c05_monitor_ok itself is PARTIAL: its never-sent-suffix clause is not proved (it needs
+   last_sent_seq_nr to lie within the table, which a peer acknowledging unsent data can break) ---- *)
+Theorem c05_monitor_core_ok_every_step_partial : forall (CC : Type) (cci : cc_iface CC) (cfg : vconfig)
+    (s : vsock CC) (o : vop),
+  ti s -> sp s -> c05_monitor_core_ok cfg (VSock_Lemmas.fstep_of cci s o) = true.
+Proof. exact @c05_monitor_core_ok_step. Qed.
+
+Theorem c05_monitor_core_ok_every_trace_partial : forall (CC : Type) (cci : cc_iface CC) (cfg : vconfig)
+    (mk : Z -> Z -> CC) (c : vconfig) (s0 : vsock CC) (ops : list vop),
+  0 <= vc_isn c < M16 -> vsock_new cci mk c = Some s0 ->
+  forallb (c05_monitor_core_ok cfg) (ftrace cci s0 ops) = true.
+Proof. exact @c05_monitor_core_ok_trace. Qed.
+
+Print Assumptions c05_rto_exit_ok2_every_step.
+Print Assumptions c05_rto_exit_ok2_every_trace.
+Print Assumptions c05_rto_exit_nonvacuous.
+Print Assumptions c05_monitor_core_ok_every_step_partial.
+Print Assumptions c05_monitor_core_ok_every_trace_partial.
